@@ -226,6 +226,11 @@ def shard_real(arg):
             if (cc, nb) not in R["idx"]:
                 check_key(rec, api, R["idx"], R["by_bic"], cc, nb, "real-unlisted")
                 rec.case("key-unlisted", (cc, nb))
+        # the same concatenated text split at other boundaries (a lookup key built by concatenation would collide)
+        for a, b in ((cc[:1], cc[1:] + code), (cc + code[:1], code[1:]), ("", cc + code), (cc + code, ""), (code, cc)):
+            if (a, b) not in R["idx"]:
+                check_key(rec, api, R["idx"], R["by_bic"], a, b, "real-unlisted")
+                rec.case("key-boundary-shift", (a, b))
         for other in ("XX", "DE" if cc != "DE" else "FR", ""):
             if (other, code) not in R["idx"]:
                 check_key(rec, api, R["idx"], R["by_bic"], other, code, "real-unlisted")
@@ -411,6 +416,6 @@ def run(ctx):
     ctx.pmap(shard_copy, [(i, ctx.seed) for i in range(ctx.pick(48, 1500))])
     ctx.extra["registry_keys"] = len(keys)
     ctx.extra["registry_bics"] = len(R["by_bic"])
-    ctx.require_classes("key-multi", "key-single", "key-bicless", "key-unlisted", "iban-listed", "iban-random-unlisted",
+    ctx.require_classes("key-multi", "key-single", "key-bicless", "key-unlisted", "key-boundary-shift", "iban-listed", "iban-random-unlisted",
                         "choice-8char", "choice-xxx", "choice-first", "copy-config", "copy-keys-multi-candidate",
                         "copy-config-with-v2")
